@@ -16,6 +16,39 @@ ASSUMPTIONS = [
 ]
 
 
+def f12_known(ctx, picked, late, H):
+    """known finding F12: the hostile prefix contains two (or more) complete, different header bursts -- valid SAME traffic -- and the
+    first burst of the clean transmission is voted with them bit by bit; the only thing wrong is ONE extra StartOfMessage, with a text
+    none of the bursts carried, before the right one.  Class decided on the prefix; shape: [chimera, H] then one EndOfMessage."""
+    if picked.count("one-header-burst") < 2:
+        return False
+    soms = [e for e in late if e["kind"] == "som"]
+    eoms = [e for e in late if e["kind"] == "eom"]
+    if not (len(soms) == 2 and soms[0]["text"] != H and soms[1]["text"] == H and len(eoms) == 1):
+        return False
+    kd = [k for k in vlib.load_known_findings("C10") if k.get("class") == "F12" and k.get("kind") == "known"]
+    if not kd:
+        return False
+    if kd[0]["line"] not in ctx.known:
+        ctx.known.append(kd[0]["line"])
+    return True
+
+
+def f12_witness(ctx):
+    """the three bursts of the finding through combine() on model and implementation: three different headers vote to a fourth text"""
+    kd = [k for k in vlib.load_known_findings("C10") if k.get("class") == "F12" and k.get("kind") == "known"]
+    if not kd:
+        return None
+    line = kd[0]["witness_input"]
+    mo = vlib.run_lines(vlib.MODELRUN, [line])[0]; im = vlib.run_lines(vlib.IMPLRUN, [line])[0]
+    if mo != im:
+        ctx.violation("correspondence", "combine: model and implementation differ on the F12 witness", {"input": line, "model": mo[:300], "impl": im[:300]})
+    hit = im.startswith("som " + vlib.hx(kd[0]["witness_text"].encode("latin1")))
+    if hit and kd[0]["line"] not in ctx.known:
+        ctx.known.append(kd[0]["line"])
+    return hit
+
+
 def hostile_segments(rng, quick):
     dur = lambda lo, hi: lo + rng.below(int((hi - lo) * 100) + 1) / 100.0
     newH = lambda: samegen.gen_header(rng, nloc=rng.choice([1, 2, 5]))   # a fresh header each time: never two identical valid bursts
@@ -108,6 +141,8 @@ def run(ctx):
             ok += 1
         elif c and rxlib.f11_known(ctx, "C10", tx, ev, [tx.H, b"NNNN"]):
             ok += 1
+        elif c and f12_known(ctx, picked, late, tx.H):
+            ok += 1
         elif c:
             ctx.violation("property", "after hostile audio %s and a %.2f s gap the clean transmission is not decoded exactly: %s [%s]"
                           % (picked, gap, c, tx.describe()), {"input": line, "events": r["impl"][-3000:], "hostile": picked})
@@ -118,6 +153,7 @@ def run(ctx):
         if len(samples) < 3:
             samples.append({"hostile": picked, "gap": gap, "rate": tx.rate, "script_head": script[:160]})
     ctx.coverage["known_finding_F11_witness_reproduces"] = rxlib.run_f11_witness(ctx, "C10")
+    ctx.coverage["known_finding_F12_witness_reproduces"] = f12_witness(ctx)
     ctx.coverage.update({
         "evaluations": len(cases), "distinct_nontrivial": nontriv,
         "rule": "1..5 hostile segments drawn from the library (listed under 'hostile_kinds'), optional short silences between them, "
